@@ -307,7 +307,11 @@ theorem validating_ok {rq : Req} {w w' : World} {c : Ctx}
   -- linker
   split at h1; · simp at h1
   rename_i hp
+  split at h1; · simp at h1
+  rename_i hpa
   simp at h1; obtain ⟨e1, e1'⟩ := h1; subst e1; subst e1'
+  split at h2; · simp at h2
+  split at h2; · simp at h2
   simp at h2; obtain ⟨e2, e2'⟩ := h2; subst e2; subst e2'
   simp at h3; obtain ⟨e3, e3'⟩ := h3; subst e3; subst e3'
   simp at h4; obtain ⟨e4, e4'⟩ := h4; subst e4; subst e4'
@@ -327,6 +331,40 @@ theorem validating_ok {rq : Req} {w w' : World} {c : Ctx}
     simp at hct
     exact hct
   · simp at h5
+
+/-- the common prefix (`linker`, `checkPrerequisites`) refuses, before anything else looks at the request and
+    before a nonce is minted, when a prerequisites checker is installed and objects (501) or fails (500) -/
+theorem validating_prereq {rq : Req} {w w' : World} {c : Ctx}
+    (h : runChain validating rq w Ctx.empty = (w', .ok c)) : rq.prereq ≠ 1 ∧ rq.prereq ≠ 2 := by
+  simp only [validating, common, List.cons_append, List.nil_append] at h
+  obtain ⟨w1, c1, h1, g1⟩ := runChain_cons_ok h
+  obtain ⟨w2, c2, h2, g2⟩ := runChain_cons_ok g1
+  simp only [runMw] at h2
+  split at h2; · simp at h2
+  rename_i n1
+  split at h2; · simp at h2
+  rename_i n2
+  exact ⟨n1, n2⟩
+
+/-- the linker lets only ACME provisioners through -/
+theorem validating_acme {rq : Req} {w w' : World} {c : Ctx}
+    (h : runChain validating rq w Ctx.empty = (w', .ok c)) : rq.provAcme = true := by
+  simp only [validating, common, List.cons_append, List.nil_append] at h
+  obtain ⟨w1, c1, h1, g1⟩ := runChain_cons_ok h
+  simp only [runMw] at h1
+  split at h1; · simp at h1
+  split at h1; · simp at h1
+  rename_i n
+  simpa using n
+
+/-- **prerequisites_refuse_untouched.** With a prerequisites checker that objects or fails, every chain that
+    starts with the common prefix answers 501 / 500 and leaves the world exactly as it was: no nonce is
+    minted, none is consumed, nothing is looked up. -/
+theorem prerequisites_refuse_untouched (rest : List Mw) (rq : Req) (w : World)
+    (hp : rq.provKnown = true) (hpa : rq.provAcme = true) (h : rq.prereq = 1 ∨ rq.prereq = 2) :
+    runChain (common ++ rest) rq w Ctx.empty =
+      (w, .error (if rq.prereq = 1 then .notImplemented else .serverInternal)) := by
+  rcases h with h | h <;> simp [common, runChain, runMw, hp, hpa, h]
 
 /-- whose key the request is checked against, per selector -/
 def signerProof (sel : Sel) (rq : Req) (w : World) (c : Ctx) : Prop :=
@@ -352,6 +390,10 @@ structure Honoured (sel : Sel) (pag : Bool) (rq : Req) (w w' : World) (c : Ctx) 
   verified : ∃ thumb kalg, c.jwk = some (thumb, kalg) ∧ (kalg = 0 ∨ kalg = rq.jws.alg) ∧ verifies rq.jws thumb = true
   payload : c.payload = some rq.jws.payloadEmpty
   postAsGet : pag = true → rq.jws.payloadEmpty = true
+  /-- a prerequisites checker installed in the request context did not object -/
+  prereq : rq.prereq ≠ 1 ∧ rq.prereq ≠ 2
+  /-- the provisioner named in the URL is an ACME provisioner -/
+  provAcme : rq.provAcme = true
 
 theorem selector_ok {sel : Sel} {rq : Req} {w w' : World} {c c' : Ctx} (hacc : c.acc = none) (hj : c.jws = some rq.jws)
     (h : runMw sel.mw rq w c = (w', .ok c')) :
@@ -401,6 +443,8 @@ theorem request_honoured_only_if {sel : Sel} {pag : Bool} {rq : Req} {w w' : Wor
     | ok c1 =>
       simp only [] at h
       have ⟨v1, v2, v3, v4, v5⟩ := validating_ok hv
+      have vp := validating_prereq hv
+      have va := validating_acme hv
       subst v4
       simp only [List.cons_append, List.nil_append] at h
       obtain ⟨w2, c2, h2, g2⟩ := runChain_cons_ok h
@@ -415,7 +459,7 @@ theorem request_honoured_only_if {sel : Sel} {pag : Bool} {rq : Req} {w w' : Wor
       have base : Honoured sel false rq w w3 c3 := by
         rw [hw31, pc]
         exact ⟨v1, v2, v3, v5, by simp [s4, ctxValidated], by simp [s2, ctxValidated],
-          signerProof_payload _ s5, ⟨thumb, kalg, pk, palg, pver⟩, rfl, by simp⟩
+          signerProof_payload _ s5, ⟨thumb, kalg, pk, palg, pver⟩, rfl, by simp, vp, va⟩
       cases pag with
       | false =>
         simp [runChain] at g3
@@ -500,6 +544,17 @@ def exReq : Req :=
   { provId := 31, provName := 32, provKnown := true, url := 40, ct := 0, certPath := false, parsed := true,
     jws := exJws, fresh := 8, target := 50, target2 := 0, payloadOk := true, wantDeactivate := false,
     onlyExisting := false, certKey := 0, certSame := true, attest := false, attPayload := 0 }
+
+/-- the hypotheses of `prerequisites_refuse_untouched` are satisfiable, and the refusal is what it says:
+    a guarded chain answers 501 without minting the nonce `exReq.fresh` -/
+example : ({ exReq with prereq := 1 } : Req).provKnown = true ∧ ({ exReq with prereq := 1 } : Req).provAcme = true ∧
+    ({ exReq with prereq := 1 } : Req).prereq = 1 := by decide
+def exWorldP : World :=
+  ⟨[7], [exAcct], [], [], [], []⟩
+example : runChain (guardedChain .kid true) { exReq with prereq := 1 } exWorldP Ctx.empty = (exWorldP, .error .notImplemented) := by
+  rfl
+example : runChain (guardedChain .jwk false) { exReq with prereq := 2 } exWorldP Ctx.empty = (exWorldP, .error .serverInternal) := by
+  rfl
 def exWorld : World :=
   { nonces := [7], accounts := [exAcct, { exAcct with id := 2, key := 12, loc := 22 }],
     orders := [⟨50, 1, 31⟩, ⟨51, 2, 31⟩], authzs := [⟨60, 1, 0⟩, ⟨61, 2, 0⟩],
